@@ -13,7 +13,7 @@ namespace enc = boost::mqtt5::encoders; namespace dec = boost::mqtt5::decoders;
 #endif
 
 struct exp_prop { uint8_t id; uint32_t num; uint8_t a[2], b[2]; int na, nb; };
-struct expect { exp_prop v[4]; int n = 0; };
+struct expect { exp_prop v[6]; int n = 0; };
 
 template <class T> struct is_opt : std::false_type {}; template <class T> struct is_opt<std::optional<T>> : std::true_type {};
 // give property `val` (identifier id) a symbolic value and remember what to expect on the wire
@@ -22,9 +22,12 @@ template <class V> static void fill(uint8_t id, V& val, expect& e) {
   if constexpr (std::is_same_v<V, std::optional<uint8_t>>) { uint8_t s = vk_sym_u8(); val = s; x.num = s; }
   else if constexpr (std::is_same_v<V, std::optional<uint16_t>>) { uint16_t s = vk_sym_u16(); val = s; x.num = s; }
   else if constexpr (std::is_same_v<V, std::optional<uint32_t>>) { uint32_t s = vk_sym_u32(); val = s; x.num = s; }
-  else if constexpr (std::is_same_v<V, std::optional<std::string>>) { x.na = 2; x.a[0] = 's'; x.a[1] = vk_sym_u8(); val = std::string{(char)x.a[0], (char)x.a[1]}; }
+  else if constexpr (std::is_same_v<V, std::optional<std::string>>) { x.na = vk_choose(2) ? 2 : 0; x.a[0] = 's'; x.a[1] = vk_sym_u8(); val = x.na ? std::string{(char)x.a[0], (char)x.a[1]} : std::string(); }
   else if constexpr (std::is_same_v<V, prop::subscription_identifiers>) { uint32_t s = vk_sym_u32(); vk_assume(s >= 1 && s <= 268435455u); val.push_back((int32_t)s); x.num = s; }
-  else { x.na = 1; x.a[0] = 'k'; x.nb = 2; x.b[0] = 'v'; x.b[1] = vk_sym_u8(); val.push_back({std::string(1, 'k'), std::string{(char)x.b[0], (char)x.b[1]}}); }
+  else {
+    x.na = 1; x.a[0] = 'k'; x.nb = 2; x.b[0] = 'v'; x.b[1] = vk_sym_u8(); val.push_back({std::string(1, 'k'), std::string{(char)x.b[0], (char)x.b[1]}});
+    if (vk_choose(2)) { exp_prop& y = e.v[e.n++]; y.id = id; y.num = 0; y.na = 1; y.a[0] = 'l'; y.nb = 0; val.push_back({std::string(1, 'l'), std::string()}); }   // a second User Property with an empty value
+  }
 }
 template <class Props> static int count_props() { int n = 0; Props p; p.visit([&](auto, auto&) { n++; return true; }); return n; }
 // choose up to VK_NPROPS distinct properties of Props (by position) and fill them
@@ -42,7 +45,8 @@ static void eq_bytes(ref::str s, const uint8_t* b, int n, const char* msg) { vk_
 static void check_props(const ref::props_t& got, const expect& e, const char* what) {
   vk_assert(got.n == e.n, what);
   for (int i = 0; i < e.n; i++) {
-    const ref::prop_t* p = got.find(e.v[i].id); vk_assert(p != nullptr, what); if (!p) continue;
+    int nth = 0; for (int j = 0; j < i; j++) if (e.v[j].id == e.v[i].id) nth++;
+    const ref::prop_t* p = got.find(e.v[i].id, nth); vk_assert(p != nullptr, what); if (!p) continue;
     ref::pkind k = ref::prop_kind(e.v[i].id);
     if (k == ref::K_STR || k == ref::K_BIN) eq_bytes(p->a, e.v[i].a, e.v[i].na, what);
     else if (k == ref::K_PAIR) { eq_bytes(p->a, e.v[i].a, e.v[i].na, what); eq_bytes(p->b, e.v[i].b, e.v[i].nb, what); }
@@ -147,8 +151,8 @@ static void ref_props(ref::wr& w, expect& e, const uint8_t* allowed, int nallowe
       case ref::K_U16: x.num = vk_sym_u16(); ref::p_u16(w, id, (uint16_t)x.num); break;
       case ref::K_U32: x.num = vk_sym_u32(); ref::p_u32(w, id, x.num); break;
       case ref::K_VARINT: x.num = vk_sym_u32(); vk_assume(x.num >= 1 && x.num <= 268435455u); ref::p_varint(w, id, x.num); break;
-      case ref::K_STR: case ref::K_BIN: x.na = 2; x.a[0] = 's'; x.a[1] = vk_sym_u8(); ref::p_str(w, id, x.a, 2); break;
-      default: x.na = 1; x.a[0] = 'k'; x.nb = 2; x.b[0] = 'v'; x.b[1] = vk_sym_u8(); ref::p_pair(w, x.a, 1, x.b, 2); break;
+      case ref::K_STR: case ref::K_BIN: x.na = vk_choose(2) ? 2 : 0; x.a[0] = 's'; x.a[1] = vk_sym_u8(); ref::p_str(w, id, x.a, x.na); break;
+      default: x.na = 1; x.a[0] = 'k'; x.nb = vk_choose(2) ? 2 : 0; x.b[0] = 'v'; x.b[1] = vk_sym_u8(); ref::p_pair(w, x.a, 1, x.b, x.nb); break;
     }
   }
 }
@@ -162,10 +166,20 @@ template <class Props> static void check_lib_props(const Props& p, const expect&
       if constexpr (std::is_same_v<typename V::value_type, std::string>) { vk_assert((int)val->size() == x->na, what); for (int i = 0; i < x->na && i < (int)val->size(); i++) vk_assert((uint8_t)(*val)[i] == x->a[i], what); }
       else vk_assert((uint32_t)*val == x->num, what);
     } else if constexpr (std::is_same_v<V, prop::subscription_identifiers>) {
-      vk_assert((val.size() == 1) == (x != nullptr) && val.size() <= 1, what); if (val.size() == 1 && x) { set++; vk_assert((uint32_t)val[0] == x->num, what); }
+      int k = 0; for (int i = 0; i < e.n; i++) if (e.v[i].id == (uint8_t)id) { vk_assert((int)val.size() > k && (uint32_t)val[k] == e.v[i].num, what); k++; set++; }
+      vk_assert((int)val.size() == k, what);
     } else {
-      vk_assert((val.size() == 1) == (x != nullptr) && val.size() <= 1, what);
-      if (val.size() == 1 && x) { set++; vk_assert(val[0].first.size() == 1 && (uint8_t)val[0].first[0] == x->a[0] && val[0].second.size() == 2 && (uint8_t)val[0].second[0] == x->b[0] && (uint8_t)val[0].second[1] == x->b[1], what); }
+      int k = 0;
+      for (int i = 0; i < e.n; i++) if (e.v[i].id == (uint8_t)id) {
+        vk_assert((int)val.size() > k, what);
+        if ((int)val.size() > k) {
+          const auto& pr = val[k]; vk_assert((int)pr.first.size() == e.v[i].na && (int)pr.second.size() == e.v[i].nb, what);
+          for (int b = 0; b < e.v[i].na && b < (int)pr.first.size(); b++) vk_assert((uint8_t)pr.first[b] == e.v[i].a[b], what);
+          for (int b = 0; b < e.v[i].nb && b < (int)pr.second.size(); b++) vk_assert((uint8_t)pr.second[b] == e.v[i].b[b], what);
+        }
+        k++; set++;
+      }
+      vk_assert((int)val.size() == k, what);
     }
     return true;
   });
@@ -176,10 +190,10 @@ static char* exact(const uint8_t* p, size_t n) { char* b = static_cast<char*>(ma
 extern "C" {
 #define ACK_DEC(NAME, DECODE, ENCODE, TYPE) \
 void NAME(void) { \
-  uint8_t body[64]; ref::wr w = {body, sizeof body, 0, false}; expect e; static const uint8_t allowed[] = {0x1F, 0x26}; \
+  uint8_t body[64]; ref::wr w = {body, sizeof body, 0, false}; expect e; static const uint8_t allowed[] = {0x1F, 0x26, 0x26}; \
   int form = (int)vk_choose(3); uint8_t rc = 0;          /* 0: nothing after the id, 1: reason code only, 2: reason code + properties */ \
   if (form >= 1) { rc = vk_sym_u8(); w.u8(rc); } \
-  if (form == 2) { uint8_t pb[32]; ref::wr pw = {pb, sizeof pb, 0, false}; ref_props(pw, e, allowed, 2); w.varint((uint32_t)pw.n); w.bytes(pb, pw.n); } \
+  if (form == 2) { uint8_t pb[32]; ref::wr pw = {pb, sizeof pb, 0, false}; ref_props(pw, e, allowed, 3); w.varint((uint32_t)pw.n); w.bytes(pb, pw.n); } \
   char* buf = exact(body, w.n); detail::byte_citer it(buf); auto r = DECODE((uint32_t)w.n, it); \
   vk_assert(r.has_value(), #DECODE ": a well-formed packet was rejected"); if (!r) return; \
   vk_assert(std::get<0>(*r) == rc, #DECODE ": reason code differs"); check_lib_props(std::get<1>(*r), e, #DECODE ": properties differ from the encoded ones"); \
@@ -206,11 +220,11 @@ void h_dec_connack(void) {
   free(buf); vk_reach("ok");
 }
 void h_dec_publish(void) {
-  uint8_t body[96]; ref::wr w = {body, sizeof body, 0, false}; expect e; static const uint8_t allowed[] = {0x01, 0x02, 0x03, 0x08, 0x09, 0x0B, 0x23, 0x26};
+  uint8_t body[96]; ref::wr w = {body, sizeof body, 0, false}; expect e; static const uint8_t allowed[] = {0x01, 0x02, 0x03, 0x08, 0x09, 0x0B, 0x0B, 0x23, 0x26, 0x26};
   uint8_t q = (uint8_t)vk_choose(3); bool retain = vk_sym_u8() & 1, dup = q ? (vk_sym_u8() & 1) : 0; uint16_t pid = vk_sym_u16(); vk_assume(pid != 0);
   uint8_t t1 = vk_sym_u8(), p1 = vk_sym_u8(); uint8_t tb[2] = {'t', t1}; int plen = (int)vk_choose(3);
   w.lstr(tb, 2); if (q) w.u16(pid);
-  uint8_t pb[40]; ref::wr pw = {pb, sizeof pb, 0, false}; ref_props(pw, e, allowed, 8); w.varint((uint32_t)pw.n); w.bytes(pb, pw.n);
+  uint8_t pb[40]; ref::wr pw = {pb, sizeof pb, 0, false}; ref_props(pw, e, allowed, 10); w.varint((uint32_t)pw.n); w.bytes(pb, pw.n);
   for (int i = 0; i < plen; i++) w.u8(i == 0 ? p1 : 'x');
   uint8_t flags = (uint8_t)((dup ? 8 : 0) | (q << 1) | (retain ? 1 : 0));
   char* buf = exact(body, w.n); detail::byte_citer it(buf); auto r = dec::decode_publish(0x30 | flags, (uint32_t)w.n, it);
